@@ -26,7 +26,7 @@ func (x *Extractor) typecheck() error {
 	conf := types.Config{Importer: importer.ForCompiler(x.fset, "source", nil), Sizes: types.SizesFor("gc", "amd64"),
 		Error: func(err error) {}}
 	x.info = &types.Info{Types: map[ast.Expr]types.TypeAndValue{}, Defs: map[*ast.Ident]types.Object{}, Uses: map[*ast.Ident]types.Object{},
-		Selections: map[*ast.SelectorExpr]*types.Selection{}}
+		Selections: map[*ast.SelectorExpr]*types.Selection{}, Implicits: map[ast.Node]types.Object{}}
 	pkg, err := conf.Check("github.com/go-ap/activitypub", x.fset, files, x.info)
 	if pkg == nil {
 		return fmt.Errorf("type-check failed: %v", err)
